@@ -12,6 +12,10 @@ C02-coef    GateauxDerivativeRuleset terminal rules: d w / d w [v] = v, other co
             Grad rule: grad^n(w) -> grad^n(v), component variations placed at the right component.
 C02-key     every dict-memo in the derivative dispatchers is keyed by everything its value is
             built from (shared rule MEMO-KEY).
+C02-pair    formoperators._handle_derivative_arguments lifted (with the constructors lifted as in C05): the
+            direction paired with each coefficient is the tensor carrying the given argument(s) in exactly the
+            requested fixed component(s) and zero elsewhere (shapes of rank 1..3, single components, tuples of
+            components, whole coefficients, several coefficients returned in count order).
 """
 
 from __future__ import annotations
